@@ -28,7 +28,8 @@ import dates as D   # noqa: E402
 from floatcmp import f2b, b2f, close  # noqa: E402
 from parallel import driver_parallel  # noqa: E402
 
-PROPS = ['FinVerif.Props.C01', 'FinVerif.Props.C01b', 'FinVerif.Props.C01c', 'FinVerif.Props.C01d', 'FinVerif.Props.C01e']
+PROPS = ['FinVerif.Props.C01', 'FinVerif.Props.C01b', 'FinVerif.Props.C01c', 'FinVerif.Props.C01d', 'FinVerif.Props.C01e',
+         'FinVerif.Props.C01f', 'FinVerif.Props.C01g']
 DRIVERS = ['FinVerif.Driver.C02', 'FinVerif.Driver.C01', 'FinVerif.Driver.C02Axis']
 GEN = ['RatesF', 'RatesR', 'CurvesF', 'DateK', 'DayCount']   # CurvesF: imported by Driver/C02, which this check also builds
 TOL = 1e-8          # value / notional, sequential bootstrap (newton tol 1e-10)
@@ -60,7 +61,7 @@ from timeaxis import touches_leap  # noqa: E402,F401  (the ONE classifier predic
 
 
 def run(ctx):
-    drivers_ok = C.lean_stage(ctx, GEN, PROPS, DRIVERS, extra_files=['FinVerif/Model/C02.lean', 'FinVerif/Model/C01.lean'])
+    drivers_ok = C.lean_stage(ctx, GEN, PROPS, DRIVERS, extra_files=['FinVerif/Model/C02.lean', 'FinVerif/Model/C01.lean', 'FinVerif/Model/C01Onf.lean'])
     C.import_financepy()
     import numpy as np
     import warnings
@@ -265,6 +266,157 @@ def run(ctx):
                 if len([b for b in ctx.broken if b.startswith('correspondence: ' + what)]) < 3:
                     ctx.broke(f'correspondence: {what}: model {o if (o.startswith("E:") or o == "bad-op") else b2f(o)} vs implementation {impl_val} on {me}')
         return cb
+
+    # ------------------------------------------------------------------ LINEAR_ONFWD_RATES: Model/C01Onf vs Interpolator
+    # Tolerances (derived): model and implementation compute the SAME forwards in the same operation order (ONFF: 1e-12 relative
+    # covers the evaluation of the k=1 spline at its own knots) and integrate them exactly (FITPACK `splint` of a linear spline vs
+    # the trapezoid sum): the two log-dfs differ by a few ulps of sum|f_k|(t_k - t_{k-1}) <= ~50 * 1.1e-16 * 10 for the rates and
+    # spans generated here, so dfs agree to well below 1e-12 relative (measured worst 3e-14).
+    from financepy.market.curves.interpolator import Interpolator as _Interp
+    ONF_RTOL = 1e-12
+
+    def knots_txt(ts_, ds_):
+        return '%d %s %s' % (len(ts_), ' '.join(f2b(float(x_)) for x_ in ts_), ' '.join(f2b(float(x_)) for x_ in ds_))
+
+    def onfs_op(fits, qs):
+        return 'ONFS %d %s %d %s' % (len(fits), ' '.join(knots_txt(t_, d_) for t_, d_ in fits), len(qs), ' '.join(f2b(float(q_)) for q_ in qs))
+
+    def impl_onf(fits):
+        it_ = _Interp(InterpTypes.LINEAR_ONFWD_RATES)
+        for t_, d_ in fits:
+            it_.fit(np.array(t_, dtype=float) if len(t_) else [], np.array(d_, dtype=float) if len(d_) else [])
+        return it_
+
+    def impl_read(it_, q_):
+        try:
+            return float(np.asarray(quiet(it_.interpolate, float(q_))).ravel()[0])
+        except FinError:
+            return 'E:FinError'
+        except Exception as ex_:  # noqa: BLE001
+            return 'E:' + type(ex_).__name__
+
+    def onf_tol(it_, tmax):
+        """relative tolerance of a df read: both sides sum the same trapezoids of the fitted forwards (in a different order), each to a
+        few ulps, so the log-dfs differ by at most ~16 eps * sum(max|r| dt) (+ the flat tail); 1e-12 floor.  For curves with sane
+        forwards the sum is ~1 and the floor rules; zig-zagging fitted forwards (which the scheme produces) enlarge it."""
+        fn_ = getattr(it_, '_interp_fn', None)
+        if fn_ is None:
+            return ONF_RTOL
+        kn_ = [float(x_) for x_ in fn_.get_knots()]
+        rt_ = [abs(float(x_)) for x_ in fn_(np.array(kn_))]
+        tot = sum(max(rt_[k_ - 1], rt_[k_]) * (kn_[k_] - kn_[k_ - 1]) for k_ in range(1, len(kn_))) + rt_[-1] * max(0.0, tmax - kn_[-1])
+        return ONF_RTOL + 16 * 2.2e-16 * tot
+
+    def onf_tie(what, me, fits, qs, on_curve=None):
+        """queue one ONFS op; compare every answer with a FRESH Interpolator put through the same fits; `on_curve(q index, model
+        value)` lets the caller compare the model with the curve object's own reads."""
+        it_ = impl_onf(fits)
+        vals = [impl_read(it_, q_) for q_ in qs]
+        rt_tol = onf_tol(it_, max([float(q_) for q_ in qs] + [0.0])) if fits else ONF_RTOL
+
+        def cb(o):
+            toks = o.split()
+            if o == 'bad-op' or len(toks) != len(qs):
+                ctx.broke(f'correspondence: {what}: driver answered {o[:80]!r} on {me}')
+                return
+            for j_, (a_, im_) in enumerate(zip(toks, vals)):
+                mo_ = a_ if a_.startswith('E:') else b2f(a_)
+                same = (mo_ == im_) if (isinstance(mo_, str) or isinstance(im_, str)) else close(mo_, im_, rtol=rt_tol, atol=0)
+                if not same:
+                    if len([b for b in ctx.broken if b.startswith('correspondence: ' + what)]) < 3:
+                        ctx.broke(f'correspondence: {what}: model {mo_} vs Interpolator {im_} at t={qs[j_]!r} on {me}')
+                elif on_curve is not None and not isinstance(mo_, str):
+                    on_curve(j_, mo_)
+            ctx.count('model/onfwd-reads', len(qs), sample={'case': me, 'query': float(qs[len(qs) // 2]), 'impl': vals[len(qs) // 2]})
+        ops1.append((onfs_op(fits, qs), cb))
+        return it_, vals
+
+    def onf_spline_tie(what, me, ts_, ds_, it_):
+        """the fitted forwards knot by knot: model `(onf_times, onf_rates)` vs the implementation's spline."""
+        kn_ = [float(x_) for x_ in it_._interp_fn.get_knots()]
+        rt_ = [float(x_) for x_ in it_._interp_fn(np.array(kn_))]
+
+        def cb(o):
+            toks = o.split()
+            bad = o == 'bad-op' or not toks or int(toks[0]) != len(kn_) or len(toks) != 1 + 2 * len(kn_)
+            if not bad:
+                n_ = len(kn_)
+                mt_, mr_ = [b2f(x_) for x_ in toks[1:1 + n_]], [b2f(x_) for x_ in toks[1 + n_:]]
+                scale = max([abs(x_) for x_ in rt_] + [1e-300])
+                bad = any(a_ != b_ for a_, b_ in zip(mt_, kn_)) or any(not close(a_, b_, rtol=1e-12, atol=1e-13 * scale) for a_, b_ in zip(mr_, rt_))
+            if bad and len([b for b in ctx.broken if b.startswith('correspondence: ' + what)]) < 3:
+                ctx.broke(f'correspondence: {what}: fitted overnight forwards differ: model {o[:120]} vs implementation knots {kn_} rates {rt_} on {me}')
+            ctx.count('model/onfwd-forwards', len(kn_))
+        ops1.append(('ONFF ' + knots_txt(ts_, ds_), cb))
+        return kn_, rt_
+
+    def onf_oracles(what, me, ts_, ds_, it_, rates_, lrng):
+        """the theorems of Props/C01f read on the implementation: knots reproduced, df(0) = 1, df > 0, continuity at the knots,
+        causality (a fit of the first i+1 knots answers the same up to knot i), all on a FRESH Interpolator."""
+        n_ = len(ts_)
+        tol_ = onf_tol(it_, ts_[-1])
+        for k_, (t_, d_) in enumerate(zip(ts_, ds_)):
+            x_ = impl_read(it_, t_)
+            want = 1.0 if abs(t_) < 1e-12 else d_
+            if isinstance(x_, str) or not close(x_, want, rtol=tol_, atol=0):
+                ctx.violation(f'{what}: LINEAR_ONFWD_RATES does not return the knot df at the knot time', me | {'knot': k_, 't': t_, 'df': d_, 'got': x_},
+                              clause='onfwd-knot-reproduced')
+        x0 = impl_read(it_, 0.0)
+        if x0 != 1.0:
+            ctx.violation(f'{what}: LINEAR_ONFWD_RATES df(0) is not 1', me | {'got': x0}, clause='onfwd-df0')
+        if n_ >= 2 and rates_:
+            fmax = max(abs(r_) for r_ in rates_)
+            for k_ in range(1, n_):
+                h_ = 1e-9 * max(1.0, ts_[k_])
+                lo_, mid_, hi_ = impl_read(it_, ts_[k_] - h_), impl_read(it_, ts_[k_]), impl_read(it_, ts_[k_] + h_)
+                # |df(t +- h) / df(t) - 1| <= exp(max|f| h) - 1 (the forwards are bounded by the largest fitted rate in absolute value)
+                bound = math.expm1(fmax * h_) * 1.01 + 1e-13
+                if any(isinstance(z_, str) for z_ in (lo_, mid_, hi_)) or not mid_ > 0.0 or abs(lo_ / mid_ - 1.0) > bound or abs(hi_ / mid_ - 1.0) > bound:
+                    ctx.violation(f'{what}: LINEAR_ONFWD_RATES jumps at a knot', me | {'knot': k_, 't': ts_[k_], 'left': lo_, 'at': mid_, 'right': hi_, 'bound': bound},
+                                  clause='onfwd-continuity')
+            # causality: the prefix fit answers the same on [0, t_i]
+            for _ in range(3):
+                i_ = lrng.randint(1, n_ - 1)
+                pre = impl_onf([(ts_[:i_ + 1], ds_[:i_ + 1])])
+                for q_ in [ts_[i_], ts_[i_ - 1], lrng.uniform(0.0, ts_[i_]), lrng.uniform(ts_[i_ - 1], ts_[i_])]:
+                    a_, b_ = impl_read(pre, q_), impl_read(it_, q_)
+                    if isinstance(a_, str) or isinstance(b_, str) or not close(a_, b_, rtol=tol_, atol=0):
+                        ctx.violation(f'{what}: LINEAR_ONFWD_RATES value before knot {i_} depends on later knots', me | {'prefix_knots': i_ + 1, 't': q_, 'prefix_fit': a_, 'full_fit': b_},
+                                      clause='onfwd-causal')
+        ctx.count('oracle/onfwd', 2 * n_ + 12)
+
+    def onfwd_curve_tie(kind, curve, v, desc, grid_q):
+        """a bootstrapped LINEAR_ONFWD_RATES curve: its final knots through the model (reads, fitted forwards), the theorems as oracles,
+        and the curve's OWN interpolator object against the model of a fit of the final knots (refit refreshed?)."""
+        Tk = [float(x_) for x_ in curve._times]
+        Dk = [float(x_) for x_ in curve._dfs]
+        me = desc | {'curve': kind}
+        qs = Tk + [tq_ for _, tq_, _ in grid_q]
+        own = {len(Tk) + j_: (q_, x_) for j_, (q_, _, x_) in enumerate(grid_q)}
+        flagged = []
+
+        def on_curve(j_, mo_):
+            if j_ in own and not flagged:
+                q_, x_ = own[j_]
+                if not close(x_, mo_, rtol=1e-10, atol=0):
+                    flagged.append(1)
+                    ud_, uf_, us_ = curve.used_deposits, curve.used_fras, curve.used_swaps
+                    fnd = None
+                    if not us_ and uf_:
+                        f_ = uf_[-1]
+                        old_ = (ud_[-1].maturity_dt.excel_dt - v.excel_dt) / 365.0 if ud_ else 0.0
+                        ts__, tm__ = (f_.start_dt.excel_dt - v.excel_dt) / 365.0, (f_.maturity_dt.excel_dt - v.excel_dt) / 365.0
+                        prev = impl_onf([(Tk[:-1], Dk[:-1])])
+                        pv_ = impl_read(prev, qs[j_])
+                        # the closed-form branch placed the LAST knot and the object still answers from the fit of the knots before it
+                        if ts__ < old_ < tm__ and not isinstance(pv_, str) and close(pv_, x_, rtol=1e-12, atol=0):
+                            fnd = 'C01/stale-fit-after-closed-form-last-knot'
+                    ctx.violation(f'{kind}: the curve answers from an interpolator that was not refitted through its final knots (LINEAR_ONFWD_RATES)',
+                                  me | {'query': ds(q_), 'curve_df': x_, 'refitted_df': mo_}, finding=fnd, clause='onfwd-refit')
+        it_, _ = onf_tie('LINEAR_ONFWD_RATES curve reads', me, [(Tk, Dk)], qs, on_curve)
+        if len(Tk) >= 2:
+            _, rt_ = onf_spline_tie('LINEAR_ONFWD_RATES curve forwards', me, Tk, Dk, it_)
+            onf_oracles(kind, me, Tk, Dk, it_, rt_, rng)
 
     def tie_curve(kind, curve, v, disc, deps_in, fras_in, swaps_in, desc, solved_ids):
         """Replay the bootstrap of `curve` in Model/C01 and compare; compare the generated kernels / objectives with the
@@ -535,6 +687,7 @@ def run(ctx):
         span = int(lastd.excel_dt - v.excel_dt)
         grid = sorted({0, 1, 2, 7, 30, 91, 182, 365, span, span + 1} | {rng.randint(0, span + 30) for _ in range(25)}
                       | {int(d.excel_dt - v.excel_dt) for _, _, _, dts in instr for d in dts})
+        onf_grid = []
         for k in grid:
             q = v.add_days(k)
             try:
@@ -544,6 +697,8 @@ def run(ctx):
             if isinstance(x, str) or not (x > 0 and math.isfinite(x)):
                 ctx.violation(f'{kind}: df on the grid is not a positive finite number', desc | {'query': ds(q), 'df': x},
                               finding=blanket, clause='positive-finite')
+            elif curve._interp_type == InterpTypes.LINEAR_ONFWD_RATES and not blanket:
+                onf_grid.append((q, yf(DCT.ACT_ACT_ISDA, v, q), x))
             elif curve._interp_type in local and not blanket:
                 tq = yf(DCT.ACT_ACT_ISDA, v, q)
                 ops.append('U %d %d %s %s %s' % (curve._interp_type.value, len(curve._times), ' '.join(map(f2b, curve._times)),
@@ -551,6 +706,8 @@ def run(ctx):
                 impl.append(x)
                 metas.append(desc | {'curve': kind, 'query': ds(q)})
         ctx.count(f'{kind}/df-grid', len(grid))
+        if onf_grid and drivers_ok:
+            onfwd_curve_tie(kind, curve, v, desc, onf_grid)
 
 
     # ------------------------------------------------------------------ re-use / re-build oracles
@@ -972,6 +1129,36 @@ def run(ctx):
                             frng.choice([InterpTypes.FLAT_FWD_RATES, InterpTypes.LINEAR_ZERO_RATES]))
         except FinError:
             tick('rebuild/futures-set-rejected-by-constructor')
+    # ---- LINEAR_ONFWD_RATES on seeded knot sets (not only bootstrapped ones): reads, fitted forwards, edge branches, object state
+    orng = ctx.rng('onfwd')
+    edge = [('empty fit', [([], [])]), ('single value at origin', [([0.0], [1.0])]), ('single value at origin, df != 1', [([0.0], [0.97])]),
+            ('single value not at origin', [([0.1], [0.9])]), ('two values including origin', [([0.0, 0.1], [1.0, 0.9])]),
+            ('anchor df != 1', [([0.0, 0.5, 1.0], [0.98, 0.97, 0.95])]),
+            ('one-knot fit after a full fit keeps the old spline', [([0.0, 0.1, 0.5], [1.0, 0.9, 0.8]), ([0.2], [0.7])]),
+            ('refit after a one-knot fit', [([0.3], [0.9]), ([0.0, 0.25, 1.0], [1.0, 0.99, 0.95])]),
+            ('never fitted', [])]
+    for nm_, fits_ in edge:
+        onf_tie('LINEAR_ONFWD_RATES ' + nm_, {'case': nm_, 'fits': fits_}, fits_, [0.0, 5e-13, 1e-12, 0.05, 0.1, 0.2, 0.3, 1.0, 5.0, -0.5])
+    for c_ in range(25 if ctx.quick() else 250):
+        n_ = orng.randint(2, 12)
+        ts_ = sorted({round(orng.uniform(0.003, 30.0), 6) for _ in range(n_)})
+        if orng.random() < 0.6:
+            ts_ = [0.0] + ts_
+        regime = orng.choice(['positive', 'negative', 'mixed', 'steep'])
+        zr = {'positive': lambda: orng.uniform(0.0, 0.09), 'negative': lambda: orng.uniform(-0.012, 0.002),
+              'mixed': lambda: orng.uniform(-0.01, 0.06), 'steep': lambda: orng.uniform(0.0, 0.25)}[regime]
+        # dfs from piecewise-constant forwards drawn in the regime's range (independent zero rates on knots a few days apart would imply
+        # forwards of thousands of per cent and underflow exp(): an artefact of the generator, seen at seed 2)
+        ds_, acc_, prev_ = [], 0.0, 0.0
+        for t_ in ts_:
+            acc_ += zr() * (t_ - prev_)
+            prev_ = t_
+            ds_.append(1.0 if t_ == 0.0 else math.exp(-acc_))
+        me_ = {'case': 'seeded knots', 'regime': regime, 'times': ts_, 'dfs': ds_}
+        qs_ = [0.0] + ts_ + [orng.uniform(0.0, ts_[-1] * 1.3) for _ in range(30)] + [ts_[-1] + 1e-9, ts_[-1] * 2.0]
+        it_, _ = onf_tie('LINEAR_ONFWD_RATES seeded knots', me_, [(ts_, ds_)], qs_)
+        _, rt_ = onf_spline_tie('LINEAR_ONFWD_RATES seeded forwards', me_, ts_, ds_, it_)
+        onf_oracles('Interpolator', me_, ts_, ds_, it_, rt_, orng)
     # ---- Model/C01, Gen/RatesF and the C06 swap objective through Driver/C01
     if ops1 and drivers_ok:
         try:
@@ -998,8 +1185,10 @@ def run(ctx):
         'the root finder (scipy.optimize.newton, tol 1e-10) and the least-squares refit are parameters with a postcondition; '
         'convergence is not proved — the postcondition is evaluated on every instrument of every curve built (it IS the repricing oracle)',
         'instrument valuation (legs, schedules, day counts) is C06/C15/C16\'s subject; here it is the implementation\'s own',
-        'interpolation is C02\'s model; locality (interp_local) is proved there for the three local kernels; LINEAR_ONFWD_RATES '
-        'and the spline types are validated by the oracles only',
+        'interpolation is C02\'s model; locality (interp_local) is proved there for the three local kernels; LINEAR_ONFWD_RATES is '
+        'Model/C01Onf (hand model of Interpolator.fit / interpolate, compared with the implementation on every curve built with it and '
+        'on seeded knot sets: reads, fitted forwards, edge branches); scipy\'s InterpolatedUnivariateSpline(k=1).integral is taken to be the '
+        'exact integral of the linear spline (that IS the comparison); the spline types are validated by the oracles only',
         'Props/C01d-e: the deposit loop and the closed-form FRA step need NO solver assumption; for FRAs / swaps on the solver branch '
         'only positivity of the returned df is assumed for the structure / positivity theorems (checked: df > 0 on the grid)',
         'Props/C01c-d: swap valuation is C06\'s hand model (tied by C06\'s correspondence and, for every swap of every curve built '
@@ -1041,6 +1230,23 @@ def replay(ctx, path):
         d, m, y = map(int, s.split('-'))
         return Date(d, m, y)
     print('replay:', v['what'], '| clause', v.get('clause'))
+    if 'times' in c and 'dfs' in c and 'valuation' not in c:
+        # an Interpolator-level case of the LINEAR_ONFWD_RATES oracles: refit the recorded knots and show the reads
+        import numpy as np
+        from financepy.market.curves.interpolator import Interpolator
+        it = Interpolator(InterpTypes.LINEAR_ONFWD_RATES)
+        it.fit(np.array(c['times'], dtype=float), np.array(c['dfs'], dtype=float))
+        for t_, d_ in zip(c['times'], c['dfs']):
+            print(f'  knot t={t_!r}: df {d_!r}, interpolate -> {float(it.interpolate(float(t_)))!r}')
+        if 't' in c:
+            print(f"  t={c['t']!r}: interpolate -> {float(it.interpolate(float(c['t'])))!r}")
+            if 'prefix_knots' in c:
+                pre = Interpolator(InterpTypes.LINEAR_ONFWD_RATES)
+                k_ = c['prefix_knots']
+                pre.fit(np.array(c['times'][:k_], dtype=float), np.array(c['dfs'][:k_], dtype=float))
+                print(f"  fit of the first {k_} knots -> {float(pre.interpolate(float(c['t'])))!r}")
+        print(' recorded case:', json.dumps(c, default=str)[:1200])
+        return 1
     vd = Dd(c['valuation'])
     ddc = DCT[c.get('deposit_dc', 'ACT_360')]
     depos = [IborDeposit(Dd(a), Dd(b), r, DCT[x_[0]] if x_ else ddc) for a, b, r, *x_ in c.get('deposits', [])]
